@@ -101,6 +101,18 @@ impl RefConv for Data {
         }
     }
 }
+/// a unit-variant enum: only strings that spell a variant convert; an error cell is still that cell's error
+#[derive(Deserialize, Debug, PartialEq, Clone, Copy)]
+enum Kw { #[serde(rename = "a")] A, #[serde(rename = "7")] Seven, #[serde(rename = "true")] True }
+impl RefConv for Kw {
+    fn conv(d: &Data, pos: P) -> Result<Self, E> {
+        match d {
+            Data::String(s) => match s.as_str() { "a" => Ok(Kw::A), "7" => Ok(Kw::Seven), "true" => Ok(Kw::True), _ => Err(E::Custom) },
+            Data::Error(_) => Err(cell_err(d, pos).unwrap()),
+            _ => Err(E::Custom),
+        }
+    }
+}
 impl<T: RefConv> RefConv for Option<T> {
     fn conv(d: &Data, pos: P) -> Result<Self, E> {
         if matches!(d, Data::Empty) { Ok(None) } else { T::conv(d, pos).map(Some) }
@@ -280,7 +292,7 @@ struct Case {
 }
 
 fn build_case<T: Target>(ch: &mut Chooser, origin: P, h: usize, w: usize, mode: HMode) -> Option<Case> {
-    let names_seq = ["a", "b", "c", "x", " b ", "a ", ""];
+    let names_seq = ["a", "b", "c", "x", " b ", "a ", "", "\u{a0}c\t", "x\r\n"];
     let names_by = ["a", "b", "c", "x"];
     let mut grid: Vec<Vec<Data>> = vec![];
     let mut hdr: Vec<String> = vec![];
@@ -306,9 +318,10 @@ fn build_case<T: Target>(ch: &mut Chooser, origin: P, h: usize, w: usize, mode: 
             let i = ch.choose("selection-pick", left.len());
             selection.push(left.remove(i));
         }
-        match ch.choose("selection-variant", 3) {
+        match ch.choose("selection-variant", 4) {
             0 => {}
             1 => { selection[0] = format!("  {} ", selection[0]); }
+            2 => { selection[0] = format!("\t{}\u{a0}\n", selection[0]); }
             _ => { let at = selection.len() - 1; selection[at] = "zz".into(); }
         }
     }
@@ -499,7 +512,7 @@ fn explore_target<T: Target>(rep: &Report, stats: &Mutex<Stats>, thorough: bool)
 }
 
 pub fn check(rep: &Report) {
-    rep.rule("choice tree: origin {(0,0),(2,3)} x height 0..3 x width 1..3 x header mode {none, all, custom selection, struct fields} x header names / ordered selections (padded, unknown) x cell contents over 10 values x 12 target shapes; full product when the job's choice product is <= 1500 (thorough 60000), else all vectors with <= 2 (thorough 3) deviations from the default; non-trivial = at least one non-default choice; distinct = by printed case");
+    rep.rule("choice tree: origin {(0,0),(2,3)} x height 0..3 x width 1..3 x header mode {none, all, custom selection, struct fields} x header names / ordered selections (padded with blanks or tab / no-break space / newline, unknown) x cell contents over 10 values x 14 target shapes (incl. a unit-variant enum, plain and optional); full product when the job's choice product is <= 1500 (thorough 60000), else all vectors with <= 2 (thorough 3) deviations from the default; non-trivial = at least one non-default choice; distinct = by printed case");
     rep.assume("reference row mapper in props/c09.rs (documented conversion rules); Custom error messages are not compared, only the error class; CellError kind and absolute position are compared exactly");
     rep.assume("padded header cells are only combined with positional targets (the statement promises trimming for header selection, not for map keys)");
     let t = crate::thorough(&rep.tier);
@@ -513,6 +526,8 @@ pub fn check(rep: &Report) {
     explore_target::<(String, Option<i64>)>(rep, &stats, t);
     explore_target::<(Data, String, Option<f64>)>(rep, &stats, t);
     explore_target::<(bool, f64)>(rep, &stats, t);
+    explore_target::<Vec<Option<Kw>>>(rep, &stats, t);
+    explore_target::<(Kw, Data)>(rep, &stats, t);
     explore_target::<RecOpt>(rep, &stats, t);
     explore_target::<RecReq>(rep, &stats, t);
     explore_target::<BTreeMap<String, Data>>(rep, &stats, t);
